@@ -789,6 +789,11 @@ def normalize_slice(idx, dim):
             if stop is not None and start is not None and stop < start:
                 stop = start
         elif step < 0:
+            if start < 0:
+                # ``slice.indices`` clamps a start before the first element to
+                # -1; kept as a literal it would mean the last element.
+                # Nothing is selected.
+                return slice(0, 0, step)
             if start >= dim - 1:
                 start = None
             if stop < 0:
